@@ -10,9 +10,9 @@ def main():
     roots = searches.root_positions()
     rng.shuffle(roots)
     pairs = []
-    npairs = 14 if q else 160
+    npairs = 24 if q else 160
     for i, p in enumerate(roots[:npairs]):
-        pairs.append((p, 5 + i % 2 if q else 5 + i % 3))
+        pairs.append((p, 6 + i % 2 if q else 5 + i % 3))
     # positions in which the very first iteration is interrupted (no root move scored yet)
     expl = searches.explosive_positions()
     for i, p in enumerate(expl[:6 if q else len(expl)]):
